@@ -190,27 +190,34 @@ fn build_inputs(rng: &mut Rng, pl: &Plan) -> Vec<Input> {
     inputs
 }
 
-fn fails_of(v: &Value) -> Vec<(String, String)> {
+/// (class, detail, signature) of every failure of one answer; the key of a failure is class+signature
+fn fails_of(v: &Value) -> Vec<(String, String, String)> {
     v["fails"]
         .as_array()
         .map(|a| {
             a.iter()
-                .map(|f| (f["class"].as_str().unwrap_or("?").to_string(), f["detail"].as_str().unwrap_or("").to_string()))
+                .map(|f| {
+                    (
+                        f["class"].as_str().unwrap_or("?").to_string(),
+                        f["detail"].as_str().unwrap_or("").to_string(),
+                        f["sig"].as_str().unwrap_or("").to_string(),
+                    )
+                })
                 .collect()
         })
         .unwrap_or_default()
 }
 
-fn classes_of(o: &Outcome) -> Vec<(String, String)> {
+fn classes_of(o: &Outcome) -> Vec<(String, String, String)> {
     match o {
         Outcome::Answer(v) => fails_of(v),
-        Outcome::Hang(t) => vec![("hang".into(), format!("no answer after {t:.0}s (twice)"))],
-        Outcome::Died(s) => vec![("died".into(), format!("worker process died: {s}"))],
+        Outcome::Hang(t) => vec![("hang".into(), format!("no answer after {t:.0}s (twice)"), String::new())],
+        Outcome::Died(s) => vec![("died".into(), format!("worker process died: {s}"), String::new())],
     }
 }
 
 /// Delta debugging (ddmin over characters): smallest text found on which `class` still occurs.
-fn minimise(p: &mut Proc, flags: u32, text: &str, class: &str, timeout: Duration) -> (String, usize) {
+fn minimise(p: &mut Proc, flags: u32, text: &str, class: &str, sig: &str, timeout: Duration) -> (String, usize) {
     let t0 = Instant::now();
     let mut tests = 0usize;
     let mut cur: Vec<char> = text.chars().collect();
@@ -219,7 +226,7 @@ fn minimise(p: &mut Proc, flags: u32, text: &str, class: &str, timeout: Duration
         *tests += 1;
         let s: String = cand.iter().collect();
         let o = p.request(flags, &s, timeout);
-        classes_of(&o).iter().any(|(c, _)| c == class)
+        classes_of(&o).iter().any(|(c, _, g)| c == class && g == sig)
     };
     while cur.len() >= 2 && tests < 400 && t0.elapsed() < Duration::from_secs(90) {
         let len = cur.len();
@@ -343,7 +350,8 @@ fn driver(out_dir: &str, tier: &str, prop: &str) {
     let (mut nodes, mut tokens, mut lex_terminals, mut max_depth) = (0u64, 0u64, 0u64, 0u64);
     let (mut fmt_accepted, mut expr_not_cover, mut stmts_not_cover) = (0u64, 0u64, 0u64);
     let mut nontrivial = 0u64;
-    let mut failing: Vec<(usize, String, String)> = vec![]; // (input idx, class, detail)
+    let mut failing: Vec<(usize, String, String, String)> = vec![]; // (input idx, class, detail, signature)
+    let mut f1_lists = 0u64;
     let mut lex_cases: Vec<String> = vec![];
     let mut tree_cases: Vec<String> = vec![];
     let mut samples: Vec<String> = vec![];
@@ -355,8 +363,12 @@ fn driver(out_dir: &str, tier: &str, prop: &str) {
         if !inp.text.is_ascii() {
             non_ascii += 1;
         }
-        for (c, d) in classes_of(o) {
-            failing.push((i, c, d));
+        let mut seen_keys: HashSet<(String, String)> = HashSet::new();
+        for (c, d, g) in classes_of(o) {
+            // one entry per (class, signature) and input
+            if seen_keys.insert((c.clone(), g.clone())) {
+                failing.push((i, c, d, g));
+            }
         }
         if let Outcome::Answer(v) = o {
             let st = &v["stats"];
@@ -365,6 +377,7 @@ fn driver(out_dir: &str, tier: &str, prop: &str) {
                 nodes += g("nodes");
                 tokens += g("tokens");
                 max_depth = max_depth.max(g("max_depth"));
+                f1_lists += g("f1");
                 if g("diags") > 0 {
                     with_diag += 1;
                 }
@@ -403,7 +416,9 @@ fn driver(out_dir: &str, tier: &str, prop: &str) {
                     ));
                 }
             }
-            if let Some(t) = v["tree"].as_str() {
+            // a tree on which the oracle already failed is decided there (violation / known finding),
+            // it is not a correspondence case
+            if let Some(t) = v["tree"].as_str().filter(|_| fails_of(v).is_empty()) {
                 tree_cases.push(format!("({},\n  {})", coqfmt::coq_str(&inp.text), t));
             }
         }
@@ -414,8 +429,8 @@ fn driver(out_dir: &str, tier: &str, prop: &str) {
     let mut per_class: BTreeMap<String, usize> = BTreeMap::new();
     let mut p = Proc::spawn();
     let max_per_class: usize = std::env::var("H10_MAX_PER_CLASS").ok().and_then(|s| s.parse().ok()).unwrap_or(3);
-    for (i, class, detail) in &failing {
-        let k = per_class.entry(class.clone()).or_default();
+    for (i, class, detail, sig) in &failing {
+        let k = per_class.entry(format!("{class}/{sig}")).or_default();
         *k += 1;
         if *k > max_per_class {
             continue;
@@ -424,21 +439,21 @@ fn driver(out_dir: &str, tier: &str, prop: &str) {
         let flags = jobs[*i].0 & !(F_LEXTERM | F_TREE | F_OPLOG);
         let crash = class == "hang" || class == "died";
         let to = if class == "hang" { Duration::from_secs(15) } else { Duration::from_secs(40) };
-        let (min, tests) = minimise(&mut p, flags, &inp.text, class, to);
+        let (min, tests) = minimise(&mut p, flags, &inp.text, class, sig, to);
         // the detail of the minimised input
         let det_min = if crash {
             detail.clone()
         } else {
             classes_of(&p.request(flags, &min, Duration::from_secs(40)))
                 .into_iter()
-                .find(|(c, _)| c == class)
-                .map(|(_, d)| d)
+                .find(|(c, _, g)| c == class && g == sig)
+                .map(|(_, d, _)| d)
                 .unwrap_or_else(|| detail.clone())
         };
         let path = format!("{out_dir}/failing_input_{}.txt", oracle_failures.len());
         fs::write(&path, &min).expect("write failing input");
         oracle_failures.push(json!({
-            "class": class, "property": property_of(class), "why": det_min, "detail_original": detail,
+            "class": class, "sig": sig, "property": property_of(class), "why": det_min, "detail_original": detail,
             "input": min, "input_bytes_hex": min.bytes().map(|b| format!("{b:02x}")).collect::<String>(),
             "input_file": path, "original_len": inp.text.len(), "minimised_len": min.len(), "ddmin_tests": tests,
             "category": inp.cat, "origin": inp.origin, "flags": flags,
@@ -446,8 +461,8 @@ fn driver(out_dir: &str, tier: &str, prop: &str) {
     }
     drop(p);
     let mut class_counts: BTreeMap<String, u64> = BTreeMap::new();
-    for (_, c, _) in &failing {
-        *class_counts.entry(c.clone()).or_default() += 1;
+    for (_, c, _, g) in &failing {
+        *class_counts.entry(if g.is_empty() { c.clone() } else { format!("{c} [{g}]") }).or_default() += 1;
     }
 
     // ---- case shards ----
@@ -469,6 +484,7 @@ fn driver(out_dir: &str, tier: &str, prop: &str) {
         "lex_cases": lex_cases.len(), "lex_shards": n_lex_shards,
         "tree_cases": tree_cases.len(), "tree_shards": n_tree_shards,
         "oracle_failure_classes": class_counts, "oracle_failing_inputs": failing.len(),
+        "trivia_lists_with_signature_F1": f1_lists,
         "workers": nworkers, "run_seconds": t_run, "total_seconds": t0.elapsed().as_secs_f64(),
     });
     fs::write(format!("{out_dir}/summary.json"), serde_json::to_string_pretty(&summary).unwrap()).unwrap();
@@ -496,8 +512,8 @@ fn main() {
             let mut p = Proc::spawn();
             let o = p.request(flags, &text, Duration::from_secs(120));
             let cs = classes_of(&o);
-            for (c, d) in &cs {
-                println!("FAIL {c}: {d}");
+            for (c, d, g) in &cs {
+                println!("FAIL {c} [{g}]: {d}");
             }
             if cs.is_empty() {
                 println!("no failure on this input");
